@@ -689,6 +689,42 @@ pub fn gen_bed(rng: &mut Rng, n: usize) -> Vec<u8> {
 }
 
 // ---------------------------------------------------------------------------------------------
+// gtf read_line to the end (the line step shared by the read_line-based record readers)
+
+fn gtf_lines<R: BufRead>(r: R, pos: impl Fn(&R) -> usize) -> String {
+    let mut rd = noodles_gtf::io::Reader::new(r);
+    let mut line = noodles_gtf::Line::default();
+    let mut out: Vec<String> = Vec::new();
+    let st = loop {
+        if out.len() > 4096 {
+            break "Err:TooManyLines".to_string();
+        }
+        match rd.read_line(&mut line) {
+            Ok(0) => break "Ok".to_string(),
+            Ok(n) => {
+                let raw: &bstr::BStr = line.as_ref();
+                out.push(format!("{n}:{}", hex(raw)));
+            }
+            Err(e) => break format!("Err:{}", nv::errkind(&e)),
+        }
+    };
+    format!("{}|{st}|{}", out.join(";"), pos(rd.get_ref()))
+}
+
+fn run_gtfl(c: &Case) -> Obs {
+    let data = c.b(0);
+    let cap = c.u(1) as usize;
+    let script = parse_script(&c.args[2]);
+    let total = data.len();
+    let obs = gtf_lines(BufReader::with_capacity(cap, ScriptedReader::new(data.clone(), script)), bpos);
+    let plain = gtf_lines(&data[..], |r: &&[u8]| total - r.len());
+    if obs != plain {
+        return Obs::fail(obs, "gtf-line-schedule-dependent", format!("plain slice gives {plain}"));
+    }
+    Obs::ok(obs, data.contains(&b'\n'))
+}
+
+// ---------------------------------------------------------------------------------------------
 // lazy sam / vcf record readers (field scanners over fill_buf windows)
 
 fn sam_records<R: BufRead>(r: R, pos: impl Fn(&R) -> usize) -> (String, Vec<String>) {
@@ -706,11 +742,21 @@ fn sam_records<R: BufRead>(r: R, pos: impl Fn(&R) -> usize) -> (String, Vec<Stri
                 out.push("Panic".into());
                 break;
             }
+            Outcome::Done(Ok(0)) => {
+                out.push("0".into());
+                break;
+            }
             Outcome::Done(Ok(n)) => {
-                out.push(n.to_string());
-                if n == 0 {
-                    break;
-                }
+                let x = &rec;
+                let view = [
+                    acc(|| x.name().map(|s| hex(s)).unwrap_or("_".into())),
+                    acc(|| hex(x.cigar().as_ref())),
+                    acc(|| hex(x.sequence().as_ref())),
+                    acc(|| hex(x.quality_scores().as_ref())),
+                    acc(|| hex(x.data().as_ref())),
+                ]
+                .join(":");
+                out.push(format!("{n}/{view}"));
                 dbg.push(acc(|| format!("{rec:?}")));
             }
             Outcome::Done(Err(e)) => {
@@ -871,6 +917,20 @@ pub fn generate(rng: &mut Rng, thorough: bool, w: &mut CaseWriter) {
         let wi = rng.chance(1, 3);
         let script = random_script(rng, t.len(), wi);
         w.push(if is_sam { "samr" } else { "vcfr" }, vec![hex(&t), rng.pick(&caps).to_string(), fmt_script(&script)]);
+        {
+            let len = rng.below(80) as usize;
+            let t: Vec<u8> = (0..len)
+                .map(|_| match rng.below(8) {
+                    0 => b'\n',
+                    1 => b'\r',
+                    2 => *rng.pick(&[b' ', b'\t', b'#']),
+                    _ => rng.range(33, 126) as u8,
+                })
+                .collect();
+            let wi = rng.chance(1, 3);
+            let script = random_script(rng, t.len(), wi);
+            w.push("gtfl", vec![hex(&t), rng.pick(&caps).to_string(), fmt_script(&script)]);
+        }
         let z = gen_bgzf(rng);
         let wi = rng.chance(1, 3);
         let script = random_script(rng, z.len(), wi);
@@ -905,6 +965,7 @@ pub fn run(c: &Case) -> Option<Obs> {
         "bgzr" => Some(run_bgzr(c)),
         "bedr" => Some(run_bedr(c)),
         "samr" | "vcfr" => Some(run_tabr(c)),
+        "gtfl" => Some(run_gtfl(c)),
         _ => None,
     }
 }
